@@ -2,6 +2,7 @@ package rules
 
 import (
 	"go/token"
+	"strings"
 
 	"golang.org/x/tools/go/ssa"
 
@@ -274,4 +275,128 @@ func configSanitizeFillsOnly(r *core.Run, rule string) {
 			"Sanitize assigns "+field+" without having tested "+field+" itself: a value the user configured is silently replaced because of some other setting")
 	})
 	r.Floor(rule, cnt, 10)
+}
+
+// c13PeriodicPushEverywhere: the periodic re-push of the routing table is started on every
+// member. Whether a member is the coordinator is decided anew on every tick (inside the
+// loop); tying the START of the loop to "is the coordinator now" leaves a member that
+// becomes coordinator after a failover without any periodic push: owners lists are never
+// pruned and a rejected push is never retried.
+func c13PeriodicPushEverywhere(r *core.Run) {
+	const rule = "periodic-push-on-every-member"
+	fn := r.Need(rule, rtPkg+".(*RoutingTable).Start")
+	if fn == nil {
+		return
+	}
+	cnt := 0
+	core.Instrs(fn.SSA, func(in ssa.Instruction) {
+		g, ok := in.(*ssa.Go)
+		if !ok {
+			return
+		}
+		o := core.CalleeObj(g)
+		if o == nil || core.QualName(o) != rtPkg+".(*RoutingTable).pushPeriodically" {
+			return
+		}
+		cnt++
+		conditional := false
+		for _, cd := range core.Conditions(in.Block()) {
+			if c, isC := cd.Val.(*ssa.Call); isC && methodName(c) == "IsCoordinator" {
+				conditional = true
+			}
+		}
+		r.Check(!conditional, rule, fn.Name+" starts the periodic push", site(r, instrPos(in)),
+			"started on every member (the coordinator test is made on every tick)",
+			"the periodic push is started only where the member is the coordinator at start-up: a member that becomes coordinator later never re-pushes the table between membership events")
+	})
+	r.Floor(rule, cnt, 1)
+}
+
+// c13ReplicaOwnersDegrade: when fewer members are alive than ReplicaCount, a partition still
+// gets as many distinct owners as there are members: the ring is asked for ReplicaCount
+// owners, then ReplicaCount-1, ... down to 1. Falling back from ReplicaCount straight to
+// "primary only" leaves every partition without any backup while 2 <= members <
+// ReplicaCount.
+func c13ReplicaOwnersDegrade(r *core.Run) {
+	const rule = "replica-owners-degrade-stepwise"
+	fn := r.Need(rule, rtPkg+".(*RoutingTable).getReplicaOwners")
+	if fn == nil {
+		return
+	}
+	f := fn.SSA
+	ok, why := false, "no loop that asks the ring for ReplicaCount, ReplicaCount-1, ... owners"
+	for _, b := range f.Blocks {
+		for _, in := range b.Instrs {
+			phi, isPhi := in.(*ssa.Phi)
+			if !isPhi || len(phi.Edges) < 2 {
+				continue
+			}
+			var init, step ssa.Value
+			for i, e := range phi.Edges {
+				if b.Dominates(b.Preds[i]) {
+					step = e
+				} else {
+					init = e
+				}
+			}
+			sb, isBin := step.(*ssa.BinOp)
+			if init == nil || !isBin || sb.Op != token.SUB || sb.X != ssa.Value(phi) {
+				continue
+			}
+			if k, isK := sb.Y.(*ssa.Const); !isK || k.Value == nil || k.Int64() != 1 {
+				continue
+			}
+			if core.LastField(core.StripConv(init)) != "ReplicaCount" {
+				continue
+			}
+			// the counter is the number of owners requested from the ring
+			asks := false
+			core.Instrs(f, func(x ssa.Instruction) {
+				c, isCall := x.(ssa.CallInstruction)
+				if !isCall || !strings.HasPrefix(methodName(c), "GetClosestN") {
+					return
+				}
+				for _, a := range c.Common().Args {
+					if core.StripConv(a) == ssa.Value(phi) {
+						asks = true
+					}
+				}
+			})
+			if asks {
+				ok, why = true, "the ring is asked for ReplicaCount owners, then one fewer, down to one"
+			}
+		}
+	}
+	r.Check(ok, rule, fn.Name, site(r, f.Pos()), why,
+		"getReplicaOwners does not step the requested owner count down from ReplicaCount one by one: with fewer live members than ReplicaCount (but more than one) partitions get no backup owner at all")
+}
+
+// engineBuiltFromEffectiveConfig: the storage engine prototype every fragment is forked
+// from is built from the EFFECTIVE configuration (the user's settings with the defaults
+// filled in), not from the defaults alone: Fork takes the scan cursor's stride (tableSize)
+// from the forked configuration but sizes the first table like the parent's, so a parent
+// built from other settings gives fragments whose cursor arithmetic does not match their
+// tables — full scans end early.
+func engineBuiltFromEffectiveConfig(r *core.Run, rule string) {
+	fn := r.Need(rule, "config.(*Engine).Sanitize")
+	if fn == nil {
+		return
+	}
+	cnt := 0
+	for _, c := range findInstrs(fn.SSA, false, callTo(kvPkg+".New")) {
+		cnt++
+		args := c.(ssa.CallInstruction).Common().Args
+		ok := false
+		if len(args) == 1 {
+			if nc, isCall := args[0].(*ssa.Call); isCall {
+				if o := core.CalleeObj(nc); o != nil && core.QualName(o) == "pkg/storage.NewConfig" && len(nc.Call.Args) == 1 && core.LastField(nc.Call.Args[0]) == "Config" {
+					ok = true
+				}
+			}
+		}
+		r.Check(ok, rule, fn.Name+" builds the engine", site(r, instrPos(c)),
+			"kvstore.New(storage.NewConfig(s.Config)): the merged configuration",
+			"the default storage engine is not built from the engine's merged configuration (s.Config): fragments forked from it combine the configured cursor stride with tables of another size, and a full scan stops before it has seen every key")
+	}
+	r.Floor(rule, cnt, 1)
 }
